@@ -11,7 +11,7 @@ def is_known(key):
 
 only = sys.argv[1:]
 QUICK = {"C01": 1000, "C02": 800, "C03": 1000, "C04": 1200, "C05": 700, "C06": 800, "C07": 800, "C08": 640, "C09": 900,
-         "C10": 1200, "C11": 800, "C12": 800, "C15": 500, "C16": 1000, "C17": 780, "C18": 800}
+         "C10": 1200, "C11": 800, "C12": 800, "C15": 500, "C16": 1000, "C17": 936, "C18": 800}
 
 def try_one(d, lane):
     meta = json.load(open('/verif/seeded/%s/meta.json' % d))
